@@ -518,6 +518,47 @@ def reject_through_option(ctx, facts, cfg):
     ctx.count("callers of an Option-valued finder that asks the unary predicate (%s)" % cfg, n)
 
 
+def construction_sites(ctx, facts, tables, cfg):
+    """K6.construction — an operation (the struct an operator and its parsed operand list are stored in) is assembled only
+    by the parser of its table, i.e. from what the dispatcher returned after the length check.  An aggregate of one of the
+    three operation types anywhere else (a "fast path" that builds `DataOperation { operator, arguments }` itself) is an
+    operation whose operand count nobody checked.  Private helpers all of whose callers are the parser are part of it."""
+    n = 0
+    for t in tables:
+        if not t.operation_impl:
+            continue
+        fv = t.operation_impl[0]
+        out = facts.items.get(fv, {}).get("output") or ""
+        m = re.search(r"Option<([\w:]+)", out)
+        if not m:
+            continue
+        adt = m.group(1)
+        allowed = {fv}
+        changed = True
+        while changed:
+            changed = False
+            for b in facts.fns():
+                root = b.key.split("::{closure#", 1)[0]
+                if root in allowed or b.kind != "fn" or facts.items.get(root, {}).get("exported"):
+                    continue
+                callers = {o.key.split("::{closure#", 1)[0] for o in facts.fns() for _, tt in o.calls() if callee_of(tt) and callee_of(tt).get("key") == root}
+                if callers and callers <= allowed:
+                    allowed.add(root)
+                    changed = True
+        for b in facts.fns():
+            root = b.key.split("::{closure#", 1)[0]
+            for bi, si, st in b.stmts():
+                if st["k"] == "Assign" and st["rv"]["k"] == "Aggregate" and (st["rv"].get("adt") or "") == adt:
+                    n += 1
+                    if root not in allowed:
+                        ctx.fail("K6.construction", "%s built in %s" % (adt.rsplit("::", 1)[-1], root.split("::", 1)[1]),
+                                 "%s assembles a %s itself: the operation does not come out of the dispatcher, so its operand count was never checked against the operator's arity" % (root.split("::", 1)[1], adt.rsplit("::", 1)[-1]),
+                                 where=b.where(bi, si), fn=b.key)
+    ctx.count("operation aggregates (%s)" % cfg, n)
+    if not any(v["clause"] == "K6.construction" for v in ctx.viol):
+        ctx.check(n >= 3, "K6.construction", "operations are assembled only by the parser of their table (%s)" % cfg, "%d operation aggregates found (expected one per table)" % n, nontrivial=True)
+
+
 def run(ctx):
     ctx.level = "proof"
     ctx.explanation = __doc__
@@ -529,6 +570,7 @@ def run(ctx):
         facts = ctx.facts(cfg)
         reject_through_option(ctx, facts, cfg)
         tables = T.read_tables(facts)
+        construction_sites(ctx, facts, tables, cfg)
         disp = Dispatcher(facts)
         roles = find_roles(facts, tables, disp)
         adt = roles["adt"]
